@@ -530,4 +530,5 @@ def run(prog, ctx):
                        "theta writers, insert/count pairing, capacity check post-domination and thresholds, probe geometry at call sites, replay loops, "
                        "trim/reset" % len(reach))
     res.not_decided = "equality of the retained set with {hashes < theta} for all streams"
+    C.seed_width_rule(res, prog, "C04.S.seed", ["theta::"])
     return res
